@@ -838,6 +838,106 @@ def ob_fun_body(run, mir, rp, fam):
     e2.prove(run, ob, ex, [], conj(claims), {"pure": vals["pure"]}, fam.as_replay("function-body:", only=["body-", "return-"]))
 
 
+def fn_value_family(rp):
+    """Calls through a function-typed value: the argument must fit the parameter type, not the other way round."""
+    f = e2.Family(rp)
+    f.add("fnvalue-nullable-into-plain", "def apply(fun: Int -> Int, z: Int?) -> Int => fun(z)", "reject")
+    f.add("fnvalue-nullable-global-into-plain", "def y: Int? := None\ndef apply(fun: Int -> Int) -> Int => fun(y)", "reject")
+    f.add("fnvalue-plain-into-nullable", "def x: Int := 3\ndef apply(fun: Int? -> Int) -> Int => fun(x)", "accept")
+    f.add("fnvalue-none-into-nullable", "def apply(fun: Int? -> Int) -> Int => fun(None)", "accept")
+    f.add("fnvalue-conforming", "def apply(fun: Int -> Int, z: Int) -> Int => fun(z)", "accept")
+    f.add("fnvalue-wrong-type", "def apply(fun: Int -> Int, z: Str) -> Int => fun(z)", "reject")
+    f.add("fnvalue-subtype-into-supertype", "def apply(fun: Float -> Int, z: Int) -> Int => fun(z)", "accept")
+    f.add("fnvalue-supertype-into-subtype", "def apply(fun: Int -> Int, z: Float) -> Int => fun(z)", "reject")
+    f.add("fnvalue-too-many-arguments", "def apply(fun: Int -> Int, z: Int) -> Int => fun(z, z)", "reject")
+    return f
+
+
+def ob_fn_value_arguments(run, mir, rp, fam, prefix="fn-value"):
+    ob = run.ob("function-value-arguments", "E2", "unify_function, call of a function-typed value, one iteration of the parameter/argument zip from an "
+                "arbitrary loop state (both orders of the constraint's sides): the zip pairs the parameter types of the callable type (first) with "
+                "the actual arguments (second); for a pair the constraint that is queued has parent = the declared parameter type (at the position "
+                "of the constraint's parent), child = the argument; a surplus or missing argument is an error", ["unify_function (loop body)"])
+    fn = e2.find1(mir, file=UNIFY_FUN_RS, name="unify_function")
+    CON = "src/check/constrain/constraint/mod.rs"
+    claims, n_push, n_err = [], 0, 0
+    ex = None
+    for order in ("function-type", "type-function"):
+        ex = Exec(mir, max_paths=5000)
+        st = State()
+        fargs = opq("fun.args", "Vec<Expected>")
+        tname = opq("type.name", "Name")
+        e_fun = e2.mk_struct(EXPECTED_RS, "Expected", {"pos": opq("f.pos", "Position"), "an_or_a": z3.Bool("f.an"), "expect":
+                             e2.mk_variant(EXPECTED_RS, "Expect", "Function", {"name": opq("fun.name", "StringName"), "args": fargs})})
+        e_ty = e2.mk_struct(EXPECTED_RS, "Expected", {"pos": opq("t.pos", "Position"), "an_or_a": z3.Bool("t.an"), "expect":
+                            e2.mk_variant(EXPECTED_RS, "Expect", "Type", {"name": tname})})
+        left, right = (e_fun, e_ty) if order == "function-type" else (e_ty, e_fun)
+        cf = e2.rust_struct(CON, "Constraint")
+        vals = {f: (z3.Bool("c." + f) if f.startswith("is_") else opq("c." + f, "?")) for f in cf}
+        vals.update(parent=left, child=right)
+        con = e2.mk_struct(CON, "Constraint", vals)
+        constraints, fin, ctx = (Ref(ex.new_cell(st, opq(n, t))) for n, t in (("constraints", "Constraints"), ("finished", "Finished"), ("ctx", "Context")))
+        ends = e2.run_kernel(run, ex, fn, [Ref(ex.new_cell(st, con)), constraints, fin, ctx, z3.BitVec("total", 64)], st)
+        lpos = ex.to_val(st, left.fields[left.names.index("pos")])
+        for p in ends:
+            if p.kind == "panic":
+                if "attempt to compute" in p.detail:       # the counters cannot overflow for any real argument list
+                    continue
+                raise Unsupported(f"panic path {p.detail[:80]}")
+            c = conj(p.cond)
+            s = p.state
+            zips = calls(p, "Itertools::zip_longest")
+            if not zips:
+                continue
+            nxt = [ev for ev in calls(p, "Iterator::next") if p.events.index(ev) > p.events.index(zips[0])]
+            iters = [ev for ev in p.events if ev["name"].split("::")[-1] == "iter" and p.events.index(ev) < p.events.index(zips[0])][-2:]
+            if len(nxt) != 1 or len(iters) != 2:
+                claims.append(z3.Not(c))
+                continue
+            # second stream = the arguments of the call; the first one comes from the callable type
+            second_is_args = z3.And(zips[0]["argvals"][1] == ex.to_val(s, iters[1]["ret"]), zips[0]["argvals"][0] == ex.to_val(s, iters[0]["ret"]),
+                                    iters[1]["argvals"][0] == ex.to_val(s, fargs))
+            TY = "EitherOrBoth<&Name, &Expected>"
+            item = nxt[0]["ret"]
+            d_opt = ex.discr(s, item, "Option<EitherOrBoth>")
+            eob = ex.project(s, ex.project(s, item, ("v", "Some")), ("f", 0), TY)
+            d = ex.discr(s, eob, TY)
+            both = ex.project(s, eob, ("v", "Both"))
+            formal = ex.project(s, both, ("f", 0), "&Name")
+            actual = ex.project(s, both, ("f", 1), "&Expected")
+            pushes = calls(p, "Constraints::push")
+            kind = result_kind(p)
+            spec = [second_is_args,
+                    z3.Implies(z3.And(d_opt == 1, d != 0), z3.BoolVal(kind == "Err")),
+                    z3.Implies(z3.And(d_opt == 1, d == 0), z3.BoolVal(p.kind == "loop_back" and len(pushes) == 1)),
+                    z3.Implies(d_opt == 0, z3.BoolVal(not pushes and kind != "Err"))]
+            if kind == "Err":
+                n_err += 1
+            if p.kind == "loop_back" and len(pushes) == 1:
+                n_push += 1
+                a = pushes[0]
+                pv = ex.read_ref(s, a["args"][2]) if isinstance(a["args"][2], Ref) else a["args"][2]
+                parent_ok = z3.BoolVal(False)
+                for nw in calls(p, "Expected::new"):
+                    second = nw["args"][1]
+                    second = ex.read_ref(s, second) if isinstance(second, Ref) else second
+                    if z3.eq(ex.to_val(s, nw["ret"]), ex.to_val(s, pv)) and isinstance(second, Agg) and second.variant == "Type":
+                        parent_ok = z3.And(ex.to_val(s, second.fields[0]) == ex.to_val(s, formal), nw["argvals"][0] == lpos)
+                spec.append(z3.And(parent_ok, a["argvals"][3] == ex.to_val(s, actual)))
+            claims.append(z3.Implies(c, conj(spec)))
+    if n_push != 2 or n_err < 2:
+        raise Unsupported(f"{n_push} queued-constraint paths, {n_err} error paths")
+    ff = fn_value_family(rp)
+    e2.prove(run, ob, ex, [], conj(claims), {}, ff.as_replay(prefix + ":"))
+    if ob.status == "discharged":
+        n, bad = ff.run()
+        run.validated += n
+        if bad:
+            ob.status = "pending"
+            ob.inconclusive(f"function-value family disagrees although the kernel is as specified: {bad[:2]}")
+    run.samples.append({"obligation": ob.id, "queued_paths": n_push, "error_paths": n_err})
+
+
 def scope_family(rp):
     """Programs whose function body ends in a name that is re-defined in the function's own scope."""
     f = e2.Family(rp)
@@ -970,7 +1070,7 @@ def run(run):
                "outside: that a violation is still caught in every nesting context (branch forking in ConstrBuilder); the accepted-exactly-when direction for whole programs")
     run.trusted += ["rustc nightly MIR dump", "mirsym MIR semantics", "z3"]
     run.bounds = {"paths": "all paths of each kernel with loops cut at their headers"}
-    for f in (ob_call_parameters, ob_method_parameters, ob_access_direction, ob_shadow_mapping, ob_operator_typing, ob_flow_constraints, ob_return, ob_id_from_var, ob_fun_body, ob_fun_body_scope, ob_unify_type):
+    for f in (ob_call_parameters, ob_method_parameters, ob_fn_value_arguments, ob_access_direction, ob_shadow_mapping, ob_operator_typing, ob_flow_constraints, ob_return, ob_id_from_var, ob_fun_body, ob_fun_body_scope, ob_unify_type):
         try:
             f(run, mir, rp, fam)
         except Unsupported as e:
